@@ -270,7 +270,7 @@ class Sim:
         tab = self.table_ms(i)
         k = min(range(len(tab)), key=lambda j: abs(tab[j] - ms))
         with self.oracle:
-            o = self.oracle_obj(i)._orbits[k]
+            o = self.oracle_obj(i)[k]
             return world.vec(o), o.form.name, o.frame.name
 
     def order_of(self, i):
@@ -287,7 +287,7 @@ class Sim:
         if i not in self.otable:
             with self.oracle:
                 e = self.oracle_obj(i)
-                self.otable[i] = [int(round((o.date - e.start).total_seconds() * 1000)) for o in e._orbits]
+                self.otable[i] = [int(round((o.date - e.start).total_seconds() * 1000)) for o in list(e)]
         return self.otable[i]
 
     def fp(self, task=None, **kw):
@@ -370,13 +370,15 @@ class Sim:
                         w._cache.clear()
             elif site == "interp":
                 for o in self.pool:
-                    if hasattr(o, "_orbits") and hasattr(o, "_interp"):
-                        o._method, o._order = o._interp.method, o._interp.order
-                        del o._interp
+                    # (reaches into the private bookkeeping of Ephem: skipped when a refactoring has renamed it)
+                    if world.is_ephem(o) and hasattr(o, "_interp") and hasattr(o, "_reset_interp"):
+                        o._reset_interp()
             elif site == "date_cache":
                 for o in self.pool:
-                    for s in o._orbits if hasattr(o, "_orbits") else [o]:
-                        s.date._cache.clear()
+                    for s in list(o) if world.is_ephem(o) else [o]:
+                        c_ = getattr(s.date, "_cache", None)
+                        if isinstance(c_, dict):
+                            c_.clear()
         self.ctx.fault("cache_clear")
         self.ctx.sig.append(("cache_clear", site))
         self.ctx.ev("cache_clear", site)
@@ -987,7 +989,7 @@ class Sim:
                     kw["step"] = nt(milliseconds=call["step_ms"])
             try:
                 e = obj.ephem(**kw)
-                got = sorted(self.off_ms(i, o.date) for o in e._orbits)
+                got = sorted(self.off_ms(i, o.date) for o in list(e))
                 exc = None
             except Exception as ex:  # noqa
                 got, exc = None, ex
